@@ -207,7 +207,12 @@ Proof.
       destruct (IHi _ _ _ _ _ E1) as (ccl & Hc & Dcl). destruct (expect_spec _ _ _ _ E2) as [-> Hrm].
       destruct (IHk _ _ _ _ _ E3) as (ck & -> & Dk). destruct (expect_spec _ _ _ _ E4) as [-> Hrb].
       exists (t :: ccl ++ rm :: ck ++ [rb]). split; [cbn [app]; rewrite Hc, <- !app_assoc; cbn [app]; rewrite <- app_assoc; reflexivity|].
-      apply DD_inorder; [exact (kind_is _ _ Ek)|exact Dcl|exact Hrm|exact Dk|exact Hrb].
+      apply DD_inorder; [exact (kind_is _ _ Ek)|exact Dcl| |exact Hrm|exact Dk|exact Hrb].
+      (* without a `max` clause the text would have started `remaining to|kept` and been read as an allotment *)
+      intros ->. inversion Dcl; subst. cbn [app] in Hc. injection Hc as -> Hk.
+      assert (Hst : is_allot_start rm = true) by (unfold is_allot_start; unfold is_kind, tk_is in Hrm; destruct (tk_kind rm); try discriminate; reflexivity).
+      rewrite Hst in Eak. cbn [andb] in Eak.
+      destruct Dk as [tk0 ik|tk0 tsd dd ik Dd]; cbn [app] in Hk; injection Hk as -> _; unfold is_kind in ik; rewrite ik in Eak; [rewrite Bool.orb_true_r in Eak|]; discriminate.
   - (* kept or destination *)
     intros ts bad k rest bad' H. cbn [parse_kod] in H. destruct ts as [|t ts']; [discriminate|].
     destruct (tk_kind t) eqn:Ek; try discriminate.
@@ -358,7 +363,7 @@ Qed.
 Theorem parse_tokens_sound ts p n : parse_tokens ts = Some (p, n) -> DProgram ts p.
 Proof.
   unfold parse_tokens. intros H.
-  assert (Hplain : match parse_statements (S (S (List.length ts))) ts O with Some (ss, bad) => Some (mkprogram [] ss, bad) | None => None end = Some (p, n) ->
+  assert (Hplain : match parse_statements (2 * List.length ts + 6) ts O with Some (ss, bad) => Some (mkprogram [] ss, bad) | None => None end = Some (p, n) ->
                    DProgram ts p).
   { intros G. destruct (parse_statements _ ts O) as [[ss bad]|] eqn:E; [|discriminate]. injection G as <- <-.
     apply DP_novars, (parse_statements_sound _ _ _ _ _ E). }
